@@ -100,11 +100,19 @@ def _lin(prog, mod, e, own, lo, hi):
     from .. import sym
     Y0, Y1, L, H = sp.symbols("ymin ymax row_lo row_hi", integer=True)
 
+    fnode = getattr(_lin, "fnode", None)
+
     class T(sym.Translator):
         def expr(self, n):
             if isinstance(n, ast.Subscript) and \
                     norm(n).replace(" ", "") == "data.shape[0]":
                 return H - L
+            if isinstance(n, ast.Name) and n.id not in self.env and \
+                    fnode is not None:
+                from .c08 import _resolve_local
+                r = _resolve_local(fnode, n)
+                if r is not n:
+                    return self.expr(r)
             return super().expr(n)
     if e is None:
         return None
@@ -135,6 +143,7 @@ def _own_rows(prog, mod, sub, own, lo, hi):
 def run(ctx):
     prog = ctx.prog
     sfn = prog.func("BANE.sigma_filter")
+    _lin.fnode = sfn.node        # named row expressions are looked up here
     clip = prog.func("BANE.sigmaclip")
     fimg = prog.func("BANE.filter_image")
     arrays = shared_arrays(sfn)
